@@ -43,8 +43,8 @@ func genQuad(g *vlib.G) {
 					body := func() {
 						calls = map[float64]int{}
 						got = quad.Fixed(func(x float64) float64 {
-							vsched.Point("f")
-							calls[x]++
+							point("f")
+							vlib.Atomically(func() { calls[x]++ })
 							return x*x + 1
 						}, 0, 1, n, rl.r, conc)
 					}
